@@ -251,17 +251,25 @@ class LineLoop(Stage):
                     a[1] = (a[1] or 'x') * d.choice([300, 1200, 5000])
                     a[1] = a[1][:d.choice([4000, 4080, 4096, 5000, 9000])]
             specs.append(sp)
-        return dict(specs=specs, queue=d.choice([None, 'Default Queue', 'q']), final_newline=d.chance(0.7))
+        # what the program itself prints between the messages (unbalanced quotes and brackets included) must not touch them
+        from .c08 import gen_chatter
+        chatter = [[gen_chatter(d)[:200] for _ in range(d.int(1, 2))] if d.chance(0.3) else [] for _ in specs]
+        return dict(specs=specs, queue=d.choice([None, 'Default Queue', 'q']), final_newline=d.chance(0.7), chatter=chatter)
 
     def execute(self, case):
         from .. import session
         res = Result()
         specs = case['specs']
         lines = [wire.render(sp, 'new', queue=case.get('queue')) for sp in specs]
-        items = [['line', l] for l in lines[:-1]] + [['line' if case['final_newline'] else 'raw', lines[-1]]]
+        items = []
+        chatter = case.get('chatter') or [[] for _ in lines]
+        for k, l in enumerate(lines):
+            for c in chatter[k]:
+                items.append(['line', c, 'chatter'])
+            items.append(['line' if (k < len(lines) - 1 or case['final_newline']) else 'raw', l])
         s = session.Session()
         segs = s.run(items)
-        segs = [g for g in segs if g.kind in ('line', 'raw')]
+        segs = [g for g in segs if g.kind in ('line', 'raw') and len(s.io.items[g.index]) < 3]
         res.evals = len(specs)
         for sp, line, seg in zip(specs, lines, segs):
             shown = [l for l in seg.out_lines() if session.MSG_LINE.match(l)]
@@ -273,6 +281,7 @@ class LineLoop(Stage):
                 res.bad('line-loop:shown-line', 'shown %r..., denotes %r...' % (body[:160], shown_line(sp)[:160]))
         res.nontrivial = any(len(l) > 1000 for l in lines) or len(specs) > 1
         if any(len(l) > 4096 for l in lines): res.label('line>4096')
+        if any(case.get('chatter') or []): res.label('chatter-between-messages')
         res.sample = dict(lengths=[len(l) for l in lines], first=lines[0][:120])
         return res
 
@@ -332,7 +341,7 @@ class Described(Stage):
 CHATTER = string.ascii_letters + string.digits + ' .,:;()[]{}<>@#-_=+*/!?\'|~%&$^`éü'
 
 
-CHATTER_TOKENS = ['[12]', '[1.5', '1.5]', '12.345', '->', ' -> ', 'a@1.b()', 'wl_surface@3.commit()', 'x#2.f(1, 2)', '(', ')', '[', ']', '{q}', '<3>',
+CHATTER_TOKENS = ['can not open "theme.css', '"', 'say "hi', '[unclosed', 'f(x', "it's", '[12]', '[1.5', '1.5]', '12.345', '->', ' -> ', 'a@1.b()', 'wl_surface@3.commit()', 'x#2.f(1, 2)', '(', ')', '[', ']', '{q}', '<3>',
                   'error:', 'Gtk-WARNING **:', '(process:123):', 'libEGL', 'warning', '12:34:56.789', '[info]', '[ 1 ]', '[a.b]', 'new id x@3',
                   'nil', 'fd 3', '"quoted"', 'wl_display@1.error(', 'discarded', '[.5]', '[5.]', '[1.2.3]', '[1,2', 'f()', 'a.b()', 'a@b.c()']
 
